@@ -155,7 +155,8 @@ struct World
     unsigned at = 0, kind = 0;
     std::uint64_t target = 0;
     int sig = -1;                  // the signal being called
-    std::vector<long> destroyed;   // connections of that signal destroyed from inside the call
+    std::vector<long> destroyed;   // connections of that signal destroyed from inside the call ...
+    std::vector<long> destroyed_before_turn; // ... those of them that had not been invoked yet
     std::vector<long> added;       // connections added to that signal from inside the call
   } reentry;
   void reenter(long cid, unsigned arg);
@@ -559,6 +560,8 @@ void World::reenter(long cid, unsigned arg)
       {
         conns[c]->destroy_signal_when_empty = false;
         reentry.destroyed.push_back(victim);
+        if (std::find(invoked.begin(), invoked.end(), victim) == invoked.end())
+          reentry.destroyed_before_turn.push_back(victim);
         ctx.probe(victim == (self + 1 != m.end() ? *(self + 1) : 0) ? "reentrant_destroy_successor" : "reentrant_destroy_other");
         destroy_conn(c, "call/reentrant-disconnect");
         ctx.ev("  (in call) disconnect " + std::to_string(victim));
@@ -638,6 +641,8 @@ void World::reenter(long cid, unsigned arg)
         Restore restore{*this, outer_invoked, outer_args};
         ok = guarded("call/nested", [&] { res = sigs[t]->call(7, arg); });
         inner = invoked;
+        for (unsigned a : args_seen)
+          SIM_CHECK(a == arg, "callback-argument", "a callback of the nested call of signal " + std::to_string(t) + " received " + std::to_string(a) + " instead of " + std::to_string(arg));
       }
       std::vector<long> const &m = msig[t];
       if (ok)
@@ -1055,14 +1060,17 @@ void World::run_op(sim::Op const &op)
     bool const ok = guarded(n, [&] { res = sigs[s]->call(initial, arg); });
     reentry.armed = false;
     raise_pending();
-    // what the call had to reach: the connections at its start plus those added meanwhile, in
-    // order. A connection destroyed or added from inside the call may or may not be invoked (the
-    // property does not say); every other one is invoked exactly once, in order.
-    std::vector<long> m = m0;
+    // what the call had to reach: the connections at its start, without those that were destroyed
+    // before their turn came ("invokes exactly the callbacks whose connection object is still
+    // alive"), in order; a connection ADDED from inside the call may or may not be invoked (the
+    // property does not say whether the running call reaches it)
+    std::vector<long> m;
+    for (long cid : m0)
+      if (std::find(reentry.destroyed_before_turn.begin(), reentry.destroyed_before_turn.end(), cid) == reentry.destroyed_before_turn.end())
+        m.push_back(cid);
     m.insert(m.end(), reentry.added.begin(), reentry.added.end());
     auto const optional_member = [&](long cid) {
-      return std::find(reentry.destroyed.begin(), reentry.destroyed.end(), cid) != reentry.destroyed.end() ||
-             std::find(reentry.added.begin(), reentry.added.end(), cid) != reentry.added.end();
+      return std::find(reentry.added.begin(), reentry.added.end(), cid) != reentry.added.end();
     };
     auto const consistent = [&](bool complete) {
       std::size_t pos = 0; // next position of m to be matched
@@ -1088,7 +1096,7 @@ void World::run_op(sim::Op const &op)
       SIM_CHECK(a == arg, "callback-argument", "a callback of signal " + std::to_string(s) + " received " + std::to_string(a) + " instead of the argument " + std::to_string(arg) + " the signal was called with (by-value arguments must reach every callback intact)");
     if (ok)
     {
-      SIM_CHECK(consistent(true), "invocation", "call of signal " + std::to_string(s) + " invoked " + vstr(invoked) + ", live connections in order are " + vstr(m) + (reentry.destroyed.empty() ? "" : ", destroyed during the call " + vstr(reentry.destroyed)) + (reentry.added.empty() ? "" : ", added during the call " + vstr(reentry.added)));
+      SIM_CHECK(consistent(true), "invocation", "call of signal " + std::to_string(s) + " invoked " + vstr(invoked) + ", live connections in order are " + vstr(m) + (reentry.destroyed_before_turn.empty() ? "" : "; destroyed during the call before their turn (must not be invoked): " + vstr(reentry.destroyed_before_turn)) + (reentry.added.empty() ? "" : ", added during the call " + vstr(reentry.added)));
       if (sigs[s]->kind() % 2 == 0)
       {
         result_t want = initial;
